@@ -312,9 +312,6 @@ def rule_segshape(ctx: Ctx) -> RuleResult:
             if lang.can_contain_sep:
                 bad = f"placeholder {{{s[0].text}}} accepts '/' ({lang.raw})"
                 break
-            if lang.kind == "other":
-                bad = f"placeholder {{{s[0].text}}} has an expression the analyser cannot classify ({lang.raw})"
-                break
         n += 1
         if bad:
             res.violation(["sid_templates", typ, "segment shape"], f"sid template '{typ}': {bad}: the number of '/'-separated segments no "
@@ -539,7 +536,7 @@ def rule_segamb(ctx: Ctx) -> RuleResult:
                 risky = []
                 for p in phs:
                     lang = T.classify(p.expr)
-                    if lang.kind in ("open", "other"):
+                    if lang.kind == "open" or (lang.kind == "other" and T.may_contain(p.expr, sorted(seps))):
                         risky.append(p.text)
                     elif any(ch in w for w in lang.words for ch in seps) or any(ch in pre for pre, _ in lang.shapes for ch in seps):
                         risky.append(p.text)
@@ -1039,4 +1036,39 @@ def rule_deadtype(ctx: Ctx) -> RuleResult:
                               "spil_hamlet_conf/spil_sid_conf.py", 0)
     res.floor(n, 20, "same-depth sid template pairs compared")
     res.ok("sid templates", f"{n} same-depth pairs: no later template is contained in an earlier one", nontrivial=False)
+    return res
+
+
+def rule_searchsym(ctx: Ctx) -> RuleResult:
+    """C07 / C09 / C10: a search symbol ('*', '>') can stand at every position of every hierarchy: each placeholder expression of the
+    final sid templates accepts both. A pattern that forgets one makes searches with that symbol at that level untypable - they are
+    dropped as invalid and answered with nothing"""
+    import re as _re
+
+    res = RuleResult("R-SEARCHSYM")
+    final = sid_tables(ctx)["final"]
+    n = 0
+    seen = set()
+    for t, tpl in final.items():
+        for p_ in T.parse_template(tpl):
+            if p_.kind != "ph":
+                continue
+            expr = p_.expr if p_.expr is not None else T.DEFAULT_EXPR
+            key = (p_.text, expr)
+            if key in seen:
+                continue
+            seen.add(key)
+            try:
+                rx = _re.compile(expr)
+            except _re.error:
+                continue
+            n += 1
+            missing = [s_ for s_ in ("*", ">") if not rx.fullmatch(s_)]
+            if missing:
+                res.violation(["sid_templates", "search symbol", p_.text, expr], f"the pattern of '{{{p_.text}}}' (`{expr[:50]}`, e.g. in type '{t}') does not accept "
+                                                                                 f"{missing}: a search with that symbol at the {p_.text} level fits no template, is "
+                                                                                 f"dropped as invalid and answered with nothing", "spil_hamlet_conf/spil_sid_conf.py", 0)
+            else:
+                res.ok(f"{{{p_.text}:{expr[:30]}}}", "accepts '*' and '>'")
+    res.floor(n, 8, "distinct placeholder expressions in the sid templates")
     return res
